@@ -936,6 +936,11 @@ func c12MapNonNil(fi *FnInfo, mu *ssa.MapUpdate) bool {
 			return true
 		}
 	}
+	// the map is a parameter of an unexported helper (`func addAttribute(attrs map[string]string, …)`): the helper runs only
+	// on behalf of its call sites (closed list), and each of them passes a map that is known non-nil there
+	if par, ok := mu.Map.(*ssa.Parameter); ok && c12ParamMapNonNil(fi.W, fi.Fn, par, 0) {
+		return true
+	}
 	// lazily initialised field: `if x.f == nil { x.f = make(...) }; x.f[k] = v` — every path to the update either
 	// took the non-nil edge of a test of the field or passed a store of a fresh map into it; all stores to the field are fresh maps
 	if un, ok := mu.Map.(*ssa.UnOp); ok {
@@ -1686,4 +1691,34 @@ func c12TailConsistent(w *World, r *ssa.Return, O ssa.Value, depth int) (bool, s
 		}
 	}
 	return true, ""
+}
+
+// c12ParamMapNonNil: par (a parameter of fn) is bound to a non-nil map at every call site of fn, the list of which is closed.
+func c12ParamMapNonNil(w *World, fn *ssa.Function, par *ssa.Parameter, depth int) bool {
+	if depth > 2 || par.Parent() != fn {
+		return false
+	}
+	i := c07ParamIndex(fn, par)
+	sites, closed := c07CallSites(w, fn)
+	if i < 0 || !closed || len(sites) == 0 {
+		return false
+	}
+	for _, site := range sites {
+		if i >= len(site.Call.Args) {
+			return false
+		}
+		a := site.Call.Args[i]
+		G := site.Parent()
+		if freshMap(a, 0) || w.Info(G).nonNil(a, site.Block()) {
+			continue
+		}
+		if pa, ok := a.(*ssa.Parameter); ok && c12ParamMapNonNil(w, G, pa, depth+1) {
+			continue
+		}
+		if labelHas(w.Info(G).GuardsOf(site), "NE("+desc(a)+",nil)") {
+			continue
+		}
+		return false
+	}
+	return true
 }
